@@ -630,7 +630,7 @@ pub fn main(opts: &Opts) -> Report {
     } else {
         let mut rng = Rng::new(opts.shard_seed() ^ 0xC11);
         let kernel_only = opts.flag("kernel-only");
-        let rounds = opts.budget(16 * 12, 16 * 600);
+        let rounds = opts.budget(16 * 150, 16 * 5000);
         for round in 0..rounds {
             for len in 0..=70 {
                 cx.rep.eval();
@@ -647,6 +647,10 @@ pub fn main(opts: &Opts) -> Report {
                 let h = rng.next();
                 cx.rep.distinct(hmix(part, h));
                 let mut r2 = Rng::new(h);
+                if cx.rep.want_sample() {
+                    let name = ["FirFilter vs f64 sliding dot product", "FftFilter(Float) vs f64 linear convolution", "IIR recurrences", "Hilbert", "QuadratureDemod/FastFM", "low_pass taps"][part as usize];
+                    cx.rep.sample(json!({"part": name, "case_seed": h.to_string(), "kernel_build": build_kind()}));
+                }
                 match part {
                     0 => fir_case(&mut cx, &mut r2),
                     1 => fft_case(&mut cx, &mut r2),
